@@ -1,4 +1,5 @@
 import PyodaProofs.C17
+import PyodaProofs.C17Read
 
 #print axioms Pyoda.C17.isoDate_fixed_width
 #print axioms Pyoda.C17.isoDate_sign_width_rule
@@ -12,3 +13,8 @@ import PyodaProofs.C17
 #print axioms Pyoda.C17.instant_ends_in_Z
 #print axioms Pyoda.C17.offset_shape
 #print axioms Pyoda.C17.offset_whole_minutes_eq_py
+#print axioms Pyoda.C17.stdlib_reads_isoDate
+#print axioms Pyoda.C17.stdlib_reads_isoTime
+#print axioms Pyoda.C17.stdlib_reads_isoDateTime
+#print axioms Pyoda.C17.stdlib_reads_isoInstant
+#print axioms Pyoda.C17.stdlib_reads_offset
